@@ -167,6 +167,96 @@ Section Spec.
   Qed.
 End Spec.
 
+(* ---------------- histories of API calls on a live node ---------------- *)
+Section HistorySpec.
+  Variables D E : Type.
+  Variable run_at : bool -> pool -> sub E -> D -> D.
+  (* Assumed of SQLite: a mode=ro connection that HAS query_only set changes nothing.
+     Nothing is assumed of a connection that lost the flag. *)
+  Hypothesis H_inert : ro_pool_inert (run_at true).
+
+  (* Whatever prefix of its read-only-pool footprint an operation completes before it
+     returns, the pooled connection goes back with query_only set. *)
+  Lemma footprint_keeps_flag (op : hop E) exit :
+    flag_after (firstn exit (ro_footprint op)) true = true.
+  Proof.
+    destruct op as [r|r|r|lv r|lv r|r| |f v|]; try destruct f; try destruct v;
+      destruct exit as [|[|exit]]; reflexivity.
+  Qed.
+
+  Theorem ro_pool_invariant (ops : list (nat * hop E)) (st : hstate D) :
+    h_ok st = true -> h_ok (hrun run_at st ops) = true.
+  Proof.
+    revert st; induction ops as [|[exit op] ops IH]; intros st Hok; [exact Hok|].
+    cbn [hrun]. apply IH. unfold hstep.
+    destruct (hop_effect run_at (h_ok st) op (h_db st)) as [d' app]. cbn [fst h_ok].
+    rewrite Hok. apply footprint_keeps_flag.
+  Qed.
+
+  (* operations that are allowed to change the contents: writes that go through the log
+     (and direct calls on the read-write connection, which are not an API of the node) *)
+  Definition may_write (op : hop E) : bool :=
+    match op with
+    | HExecute _ | HDbRequest _ | HDbExecute _ => true
+    | HRequest lv r => match store_request D lv r with ViaLog _ => true | Local => false end
+    | _ => false
+    end.
+
+  Lemma hop_effect_inert (op : hop E) d :
+    may_write op = false -> fst (hop_effect run_at true op d) = d.
+  Proof.
+    destruct op as [r|r|r|lv r|lv r|r| |f v|]; cbn [may_write hop_effect]; intros Hm; try discriminate Hm; try reflexivity.
+    - apply (db_query_inert H_inert).
+    - pose proof (query_endpoint_never_writes H_inert lv r d) as Q.
+      destruct (store_query D lv r) as [|e]; cbn [fst]; [exact Q|exact (proj2 Q)].
+    - destruct (store_request D lv r) as [|e]; [|discriminate Hm]. cbn [fst]. apply (db_query_inert H_inert).
+  Qed.
+
+  (* For ANY history of API calls starting from a pristine pool: query-endpoint requests at
+     every level, locally served unified requests, refused requests, backups of every format
+     (successful or not, wherever they stop) and snapshots leave the contents alone. *)
+  Theorem history_reads_never_write (ops : list (nat * hop E)) (st : hstate D) :
+    h_ok st = true ->
+    Forall (fun eo => may_write (snd eo) = false) ops ->
+    h_db (hrun run_at st ops) = h_db st.
+  Proof.
+    intros Hok Hf; revert st Hok; induction Hf as [|[exit op] ops Hop _ IH]; intros st Hok; [reflexivity|].
+    cbn [hrun]. cbn [snd] in Hop.
+    assert (Hok' : h_ok (fst (hstep run_at exit st op)) = true).
+    { apply (ro_pool_invariant [(exit, op)] st Hok). }
+    rewrite (IH _ Hok'). unfold hstep. rewrite Hok.
+    pose proof (hop_effect_inert op (h_db st) Hop) as Hd.
+    destruct (hop_effect run_at true op (h_db st)) as [d' app]. exact Hd.
+  Qed.
+
+  (* ... and inside any history (writes included) the same holds step by step: an operation
+     that may not write leaves the contents of the state it meets. *)
+  Theorem history_step_inert (ops : list (nat * hop E)) (st : hstate D) exit (op : hop E) :
+    h_ok st = true -> may_write op = false ->
+    h_db (fst (hstep run_at exit (hrun run_at st ops) op)) = h_db (hrun run_at st ops).
+  Proof.
+    intros Hok Hop. pose proof (ro_pool_invariant ops st Hok) as Hk.
+    unfold hstep. rewrite Hk.
+    pose proof (hop_effect_inert op (h_db (hrun run_at st ops)) Hop) as Hd.
+    destruct (hop_effect run_at true op (h_db (hrun run_at st ops))) as [d' app]. exact Hd.
+  Qed.
+
+  (* A Store operation that did not grow the log did not change the contents. *)
+  Definition store_op (op : hop E) : bool :=
+    match op with HDbQuery _ | HDbRequest _ | HDbExecute _ => false | _ => true end.
+
+  Theorem change_needs_log_entry (op : hop E) d :
+    store_op op = true -> snd (hop_effect run_at true op d) = false ->
+    fst (hop_effect run_at true op d) = d.
+  Proof.
+    destruct op as [r|r|r|lv r|lv r|r| |f v|]; cbn [store_op hop_effect]; intros Hs Ha; try discriminate Hs; try reflexivity.
+    - pose proof (query_endpoint_never_writes H_inert lv r d) as Q.
+      destruct (store_query D lv r) as [|e]; cbn [fst]; [exact Q|exact (proj2 Q)].
+    - destruct (store_request D lv r) as [|e]; cbn [fst snd] in *; [apply (db_query_inert H_inert)|discriminate Ha].
+    - unfold store_execute in Ha. cbn [snd] in Ha. discriminate Ha.
+  Qed.
+End HistorySpec.
+
 (* ---------------- the full statement for the unified endpoint is false ---------------- *)
 Open Scope N_scope.
 
@@ -228,3 +318,15 @@ Proof.
   split; [|reflexivity].
   repeat constructor; cbn; intros H; try exact H; discriminate H.
 Qed.
+
+Lemma t_run_at_inert : ro_pool_inert (t_run_at true).
+Proof. intros s d. reflexivity. Qed.
+
+Example ex_history :
+  (* failed vacuumed backup, refused PRAGMA, strong query with a writing tail, snapshot, local unified read *)
+  let ops : list (nat * hop (list rowop)) :=
+    [(0%nat, HBackup BfBinary true); (0%nat, HRefused); (1%nat, HQuery LvStrong [ex_text]);
+     (0%nat, HSnapshot); (1%nat, HRequest LvNone [ex_text])] in
+  Forall (fun eo => may_write table (snd eo) = false) ops /\
+  hrun t_run_at {| h_db := ex_db; h_ok := true |} ops = {| h_db := ex_db; h_ok := true |}.
+Proof. split; [repeat constructor|reflexivity]. Qed.
